@@ -683,6 +683,12 @@ func (vc *VC) callFunc(fr *Frame, st *State, x *ssa.Call, callee *ssa.Function, 
 
 // cutPoints checks, then assumes, the contract's assertions attached to a call site.
 func (vc *VC) cutPoints(fr *Frame, st *State, keys []string, prefix string) {
+	if fr.cutHits == nil {
+		fr.cutHits = map[string]bool{}
+	}
+	for _, key := range keys {
+		fr.cutHits[prefix+key] = true
+	}
 	for _, key := range keys {
 		for _, gd := range fr.con.Ghosts[prefix+key] {
 			env := vc.loopEnvAt(fr, st)
